@@ -14,6 +14,8 @@ import time
 from dataclasses import dataclass, field, asdict
 
 VERIF = os.path.dirname(os.path.dirname(os.path.abspath(__file__)))
+# evidence/ and replays/ of runs against scratch copies (mutants, seeds) go elsewhere so that they do not clobber the real ones
+OUT_DIR = os.environ.get("PYVC_OUT_DIR") or VERIF
 REPO = os.environ.get("PYVC_REPO", "/repo")
 PY = sys.executable
 
@@ -139,7 +141,7 @@ class Report:
         self.functions[qualname] = {"where": where, "hash": h}
 
     def write_replay(self, ob: Obligation, native: dict | None):
-        d = os.path.join(VERIF, "replays", self.prop_id)
+        d = os.path.join(OUT_DIR, "replays", self.prop_id)
         os.makedirs(d, exist_ok=True)
         safe = "".join(c if c.isalnum() or c in "._-" else "_" for c in ob.id)[:150]
         path = os.path.join(d, safe + ".json")
@@ -248,8 +250,8 @@ class Report:
             "wall_s": round(wall, 2),
             "violations": len(self.violations),
         }
-        os.makedirs(os.path.join(VERIF, "evidence"), exist_ok=True)
-        with open(os.path.join(VERIF, "evidence", f"{self.prop_id}.json"), "w", encoding="utf-8") as f:
+        os.makedirs(os.path.join(OUT_DIR, "evidence"), exist_ok=True)
+        with open(os.path.join(OUT_DIR, "evidence", f"{self.prop_id}.json"), "w", encoding="utf-8") as f:
             json.dump(ev, f, indent=1, ensure_ascii=True)
         for l in lines:
             print(l)
